@@ -106,6 +106,7 @@ func VerifH_C20_args() {
 	if err != nil {
 		symAssert(vt == nil, "no-table-on-error")
 		symAssert(len(tables) == before, "nothing-registered-on-error")
+		symAssert(GetTable("t") == nil, "registry-usable-after-rejected-definition")
 	} else {
 		symAssert(vt != nil && tables["t"] == vt, "table-registered")
 		symAssert(vC20OpenCalled == 1, "store-opened-once")
